@@ -102,6 +102,8 @@ def run(mid, props):
         sh("git -C /repo worktree remove --force %s" % wt)
         shutil.rmtree(wt, ignore_errors=True)
         sh("git -C /repo worktree prune")
+        import hashlib
+        shutil.rmtree(os.path.join(ROOT, "build", "alt-" + hashlib.sha256(wt.encode()).hexdigest()[:8]), ignore_errors=True)
     mp = os.path.join(d, "meta.json")
     m = json.load(open(mp))
     m.setdefault("checks", {}).update({p: {"exit": r["exit"], "violation_lines": r["violation_lines"], "summary": r["summary"]} for p, r in results.items()})
